@@ -360,6 +360,7 @@ def _collect_bound_values(
     Returns:
         Merged dict of all bound values (current graph + nested graphs)
     """
+    from hypergraph.nodes._rename import build_reverse_rename_map
     from hypergraph.nodes.graph_node import GraphNode
 
     # Start with current graph's bound values
@@ -370,8 +371,12 @@ def _collect_bound_values(
         if isinstance(node, GraphNode):
             # Get bound values from the inner graph
             inner_bound = node.graph.inputs.bound
+            # Inner names -> the names this wrapper exposes them under (with_inputs renames)
+            reverse_map = build_reverse_rename_map(node._rename_history, "inputs")
+            exposed_as = {reverse_map.get(current, current): current for current in node.inputs}
             # Merge into all_bound (current graph's values take precedence)
             for key, value in inner_bound.items():
+                key = exposed_as.get(key, key)
                 if key not in all_bound:
                     all_bound[key] = value
 
